@@ -164,7 +164,7 @@ def corner_poly(phis):
 def corner_phases(rng, n, style=None):
     """phase list of length n+1 whose Wx corner is a generic / special polynomial"""
     if style is None:
-        style = str(rng.choice(["generic", "generic", "real", "imag", "double", "smallends", "chebyshev", "nearly-real", "mirror"]))
+        style = str(rng.choice(["generic", "generic", "real", "imag", "double", "smallends", "chebyshev", "nearly-real", "mirror", "degree-drop-adjacent"]))
     ph = rng.uniform(-math.pi, math.pi, size=n + 1)
     if style == "real":          # P real: symmetric phases with zero ends... use all phases in {0, pi/2 multiples}+noise-free pattern
         ph = rng.uniform(-1.2, 1.2, size=n + 1)
@@ -192,6 +192,12 @@ def corner_phases(rng, n, style=None):
         ph = ph + rng.normal(size=n + 1) * mag * (rng.random(n + 1) < 0.6)
         if rng.random() < 0.5:
             ph[0] += 10.0 ** float(rng.uniform(-9, -6))
+    elif style == "degree-drop-adjacent":
+        # one interior phase 1e-9 .. 3e-6 away from +-pi/2: AT pi/2 the degree of the corner drops by two, next to it the
+        # leading coefficient is genuine but tiny (|c_d| ~ the distance)
+        if n >= 2:
+            k = int(rng.integers(1, n))
+            ph[k] = float(rng.choice([-1, 1])) * math.pi / 2 + float(rng.choice([-1, 1])) * 10.0 ** float(rng.uniform(-9, -5.5))
     elif style == "mirror":      # mirror-symmetric interior, free ends: tied roots
         inner = rng.uniform(-1.3, 1.3, size=max(n - 1, 0))
         inner = (inner + inner[::-1]) / 2
